@@ -46,6 +46,7 @@ class ModeDriver(MachineDriver):
                 m.events.add_handler("mode_%s_%s" % (n, ev), self._life, priority=-1000, _m=n, _e=ev)
         m.events.add_handler("m1_delay_fired", self._delay_fired)
         self.baseline = self.registry()
+        self.prio_at_start = {}
         self.pending_start = {n: False for n in MODES}
         self.pending_stop = {n: False for n in MODES}
 
@@ -117,10 +118,16 @@ class ModeDriver(MachineDriver):
             accepted = not md.active and not md.starting
             if accepted:
                 self.pending_start[mode] = True
-            if direct:
+            if direct == "prio":
+                md.start(mode_priority=400)         # a start with a priority that differs from the configured one
+                if accepted:
+                    self.prio_at_start[mode] = 400
+            elif direct:
                 md.start()
             else:
                 self.m.events.post("start_%s" % mode)
+            if accepted and direct != "prio":
+                self.prio_at_start[mode] = md.config["mode"]["priority"]
         else:
             accepted = md.active
             if accepted:
@@ -134,6 +141,7 @@ class ModeDriver(MachineDriver):
         out = []
         for n in MODES:
             out += [["start", n], ["stop", n], ["ev_start", n], ["ev_stop", n]]
+        out.append(["start_prio", "m2"])
         for ev, act in self.ARMS:
             if ("m1", ev) not in self.armed:
                 out.append(["arm", ev, act])
@@ -148,7 +156,9 @@ class ModeDriver(MachineDriver):
 
     def do_op(self, op):
         k = op[0]
-        if k in ("start", "stop"):
+        if k == "start_prio":
+            self._request(op[1], "start", direct="prio")
+        elif k in ("start", "stop"):
             self._request(op[1], k, direct=True)
         elif k in ("ev_start", "ev_stop"):
             self._request(op[1], k[3:], direct=False)
@@ -177,6 +187,9 @@ class ModeDriver(MachineDriver):
             self.violate("active-order", "active_modes priorities %r are not descending" % pr)
         for n in MODES:
             md = m.modes[n]
+            if md.active and n in self.prio_at_start and md.priority != self.prio_at_start[n]:
+                self.violate("priority-changed:%s" % n, "mode %s was started with priority %s and is still active, but its priority is "
+                             "now %s" % (n, self.prio_at_start[n], md.priority))
             if md.active != (self.last[n] in ("started", "will_stop", "stopping")):
                 if not (self.last[n] == "starting" and md.active):      # active is set just before 'started' is dispatched
                     self.violate("active-flag:%s" % n, "mode %s active=%s but its last lifecycle event is %s" %
